@@ -60,6 +60,15 @@ package main
 // Go identifiers ending in `_` are refused (such names are generated: `rest_`, `t1_`, `st_`, …).  `s[0]` without a bounds check only under a `len(s) > 0` / after a `len(s) == 0 { return }` guard.
 // Structs with n ≥ 2 fields -> the product of the field types (composite literal = tuple, `x.f` = projection); a
 // method with a value receiver -> a function whose first parameter is the receiver (`Recv_Method`).
+// METHOD mode (the slice-backed containers, Gen/Containers.lean): a method with a POINTER receiver on a struct.  The
+// fields of the receiver (other than `sync.*` fields) are variables `<recv>_<field>`, parameters of the Lean function;
+// `recv.f` reads and `recv.f = e` / `recv.f[i] = e` assigns that variable.  A method that assigns no field (neither
+// itself nor through a method it calls) is a READER and returns its results; any other returns `(results, fields)`.
+// Results are a tuple in which a result of type `error` is a `Bool` (non-nil); `()` when there are none.  Named results
+// are variables initialised with their zero values; a bare `return` returns them.  `recv.mu.Lock()` / `Unlock()` /
+// `RLock()` / `RUnlock()` and their `defer` forms are SKIPPED: what is translated is the body as executed by one
+// goroutine alone (atomicity of the critical sections is what C01/C02 establish).  A call `recv.m(args)` of a READER of
+// the same type is a call of its translation on the current fields; calls of mutating methods are outside the fragment.
 // A callback WITHOUT result (`fn func(T)`) is an effect: it becomes a state transformer `T → σ_ → σ_` for an
 // arbitrary type σ_, the function takes the initial state as an extra last parameter `st_`, every call statement
 // `fn(e)` is `st_ := fn e st_`, and a function without results returns the final state.  (So the ORDER of the
@@ -111,6 +120,23 @@ type fragCtx struct {
 	effect  bool                            // a callback without result is a state transformer σ_ → σ_; the function threads `st_`
 	noRes   bool                            // the Go function has no result: the Lean result is the final state `st_`
 	err     string
+	// METHOD mode (a method with a pointer receiver on a struct): the fields of the receiver are variables
+	method  bool
+	recv    string     // Go name of the receiver
+	fields  []fieldVar // the fields that are modelled (sync.* fields are not)
+	mutates bool       // the method (or a method it calls) assigns a field: the result is paired with the final fields
+	named   []namedRes // named results
+	results []string   // Lean types of the results (error -> Bool)
+	key     string     // key of this function in fragByName
+}
+
+type fieldVar struct {
+	goName, lean, typ string
+}
+
+type namedRes struct {
+	goName, typ string
+	isErr       bool
 }
 
 var leanReserved = map[string]bool{"end": true, "fun": true, "at": true, "from": true, "in": true, "then": true,
@@ -364,6 +390,8 @@ var fragFunctions = []string{"Sum", "SumBy", "IndexOf", "Contains", "Every", "So
 	"FilterMap", "FilterMapCollection", "Filter2DMapCollection"}
 
 type fragResult struct {
+	method   bool
+	mutates  bool
 	leanName string
 	status   string // "ok" or "unsupported: …"
 	res      bool
@@ -446,9 +474,12 @@ func translateFunc(goName, suffix string, tsubst map[*types.TypeParam]types.Type
 			}
 		}
 		sig := f.obj.Type().(*types.Signature)
+		c.key = goName
 		if r := sig.Recv(); r != nil { // a method with a value receiver: the receiver is the first parameter
-			if _, isPtr := r.Type().(*types.Pointer); isPtr || r.Name() == "" || r.Name() == "_" {
-				c.fail("pointer or unnamed receiver")
+			if ptr, isPtr := r.Type().(*types.Pointer); isPtr && r.Name() != "" && r.Name() != "_" {
+				c.methodSetup(r.Name(), ptr.Elem())
+			} else if isPtr || r.Name() == "" || r.Name() == "_" {
+				c.fail("unnamed receiver")
 			} else {
 				c.params = append(c.params, lv(r.Name()))
 				c.ptypes = append(c.ptypes, c.leanType(r.Type()))
@@ -463,6 +494,8 @@ func translateFunc(goName, suffix string, tsubst map[*types.TypeParam]types.Type
 			c.ptypes = append(c.ptypes, c.leanType(p.Type()))
 		}
 		switch {
+		case c.method:
+			c.methodResults(sig, f.decl)
 		case sig.Results().Len() == 0 && c.effect:
 			c.ret = "σ_"
 			c.noRes = true
@@ -490,13 +523,13 @@ func translateFunc(goName, suffix string, tsubst map[*types.TypeParam]types.Type
 		})
 		body = ""
 		if c.err == "" {
-			body = c.stmts(f.decl.Body.List, nil)
+			body = c.namedInit() + c.stmts(f.decl.Body.List, nil)
 		}
 		if c.err == "" || !c.needRes {
 			break
 		}
 	}
-	r := &fragResult{leanName: leanName, res: c.res, effect: c.effect}
+	r := &fragResult{leanName: leanName, res: c.res, effect: c.effect, method: c.method, mutates: c.mutates}
 	if c.err != "" {
 		r.status = "unsupported: " + c.err
 		fmt.Fprintf(fragOut, "-- %s: outside the translated fragment (%s)\n\n", leanName, c.err)
@@ -646,6 +679,13 @@ func translateFrag() (string, map[string]string) {
 			}
 		}
 	}
+	for _, f := range order {
+		if containerPkgs[f.pkg.Name] && f.decl.Recv != nil {
+			if n := recvTypeName(f.obj); n != "" {
+				fragByName[f.pkg.Name+"."+n+"_"+f.obj.Name()] = f
+			}
+		}
+	}
 	for _, name := range fragFunctions {
 		r := translateFunc(name, "", nil, nil)
 		status[name] = r.status
@@ -660,5 +700,40 @@ func translateFrag() (string, map[string]string) {
 	}
 	sort.Strings(extra)
 	sb.WriteString("end GoguVerif.Gen.Funcs\n")
+	return sb.String(), status
+}
+
+// containerPkgs: packages whose pointer-receiver methods are translated in METHOD mode (Gen/Containers.lean).
+var containerPkgs = map[string]bool{"queue": true, "stack": true}
+
+// containerMethods lists the methods that are regenerated, by key `pkg.Type_method`.
+var containerMethods = []string{
+	"queue.Queue_Enqueue", "queue.Queue_Dequeue", "queue.Queue_Peek", "queue.Queue_Search", "queue.Queue_Size", "queue.Queue_Clear",
+	"stack.Stack_Push", "stack.Stack_Pop", "stack.Stack_Peek", "stack.Stack_Search", "stack.Stack_Size",
+}
+
+// translateContainers: must run after translateFrag (shares its tables).
+func translateContainers() (string, map[string]string) {
+	status := map[string]string{}
+	var sb strings.Builder
+	sb.WriteString("import GoguVerif.Gen.Funcs\n")
+	sb.WriteString("/-! GENERATED by /verif/translator (frag*.go, METHOD mode) from /repo's current source — do not edit.\n\n")
+	sb.WriteString("Mechanical Go → Lean translation of the methods of the slice-backed containers: the fields of the pointer\n")
+	sb.WriteString("receiver are variables (a mutating method returns its results paired with the final fields); the mutex\n")
+	sb.WriteString("calls are skipped (locking is the business of C01/C02).  `Theorems/GenTieQS.lean` proves each definition\n")
+	sb.WriteString("equal to the hand-written model. -/\n")
+	sb.WriteString("set_option linter.unusedVariables false\nnamespace GoguVerif.Gen.Containers\n")
+	sb.WriteString("open GoguVerif.Gen.Funcs (Res Exc goIdx goSlice goSet goDiv goMod goMake mapHas mapGet mapSet mapDel sorryUnsupported)\n\n")
+	fragOut = &sb
+	for _, name := range containerMethods {
+		r := translateFunc(name, "", nil, nil)
+		status[name] = r.status
+	}
+	for n, r := range fragDone {
+		if _, listed := status[n]; !listed && strings.Contains(n, ".") {
+			status[n] = r.status + " (dependency)"
+		}
+	}
+	sb.WriteString("end GoguVerif.Gen.Containers\n")
 	return sb.String(), status
 }
